@@ -110,12 +110,12 @@ fn c14s_pipeline_witness() {
 
 // =================================================================================================
 // C14: ShaderPackage::from_existing on a generated minimal package: no shaders / resource
-// parameters, 1 material parameter, 1 system key, 1 material key, 3 nodes (1 pass each), 1 alias.
+// parameters, 1 material parameter, 1 system key, 1 material key, 2 nodes (1 pass each), 1 alias.
 // Counts are concrete (shape); every id / key / selector / pass field / alias target is symbolic.
 // =================================================================================================
 const SP_NODES: usize = 104;
 const SP_NODE: usize = 52;
-const SP_ALIAS: usize = SP_NODES + 3 * SP_NODE; // 260
+const SP_ALIAS: usize = SP_NODES + 2 * SP_NODE; // 208
 const SP_TOTAL: usize = SP_ALIAS + 8;
 fn sp_le32(b: &[u8; SP_TOTAL], o: usize) -> u32 { u32::from_le_bytes([b[o], b[o + 1], b[o + 2], b[o + 3]]) }
 fn sp_le16(b: &[u8; SP_TOTAL], o: usize) -> u16 { u16::from_le_bytes([b[o], b[o + 1]]) }
@@ -134,11 +134,11 @@ fn c14_shader_package_from_existing() {
     sp_set16(&mut b, 38, 0);                                     // no defaults
     sp_set16(&mut b, 40, 0); sp_set16(&mut b, 44, 0); sp_set16(&mut b, 46, 0); sp_set16(&mut b, 48, 0);
     sp_set32(&mut b, 52, 1); sp_set32(&mut b, 56, 0); sp_set32(&mut b, 60, 1); // system / scene / material key counts
-    sp_set32(&mut b, 64, 3); sp_set32(&mut b, 68, 1);          // nodes, aliases
+    sp_set32(&mut b, 64, 2); sp_set32(&mut b, 68, 1);          // nodes, aliases
     let mut n = 0;
-    while n < 3 { sp_set32(&mut b, SP_NODES + n * SP_NODE + 4, 1); n += 1; } // one pass per node
+    while n < 2 { sp_set32(&mut b, SP_NODES + n * SP_NODE + 4, 1); n += 1; } // one pass per node
     let target = sp_le32(&b, SP_ALIAS + 4);
-    kani::assume(target <= 3);                                   // 3 = one past the last node
+    kani::assume(target <= 2);                                   // 2 = one past the last node
     let pkg = ShaderPackage::from_existing(&b).unwrap();
     // header scalars and tables
     assert_eq!(pkg.version, sp_le32(&b, 4));
@@ -151,9 +151,9 @@ fn c14_shader_package_from_existing() {
     assert_eq!((pkg.material_keys[0].id, pkg.material_keys[0].default_value), (sp_le32(&b, 88), sp_le32(&b, 92)));
     assert_eq!((pkg.sub_view_key1_default, pkg.sub_view_key2_default), (sp_le32(&b, 96), sp_le32(&b, 100)));
     // nodes
-    assert_eq!(pkg.nodes.len(), 3);
+    assert_eq!(pkg.nodes.len(), 2);
     let k: usize = kani::any();
-    kani::assume(k < 3);
+    kani::assume(k < 2);
     let o = SP_NODES + k * SP_NODE;
     let nd = &pkg.nodes[k];
     assert_eq!(nd.selector, sp_le32(&b, o));
@@ -166,15 +166,15 @@ fn c14_shader_package_from_existing() {
     assert_eq!((nd.passes[0].id, nd.passes[0].vertex_shader, nd.passes[0].pixel_shader), (sp_le32(&b, o + 40), sp_le32(&b, o + 44), sp_le32(&b, o + 48)));
     // selector resolution: nodes in order, then the alias; an alias naming a missing node resolves to nothing
     let q: u32 = kani::any();
-    let (s0, s1, s2, sa) = (sp_le32(&b, SP_NODES), sp_le32(&b, SP_NODES + SP_NODE), sp_le32(&b, SP_NODES + 2 * SP_NODE), sp_le32(&b, SP_ALIAS));
-    let want: Option<usize> = if q == s0 { Some(0) } else if q == s1 { Some(1) } else if q == s2 { Some(2) } else if q == sa && target < 3 { Some(target as usize) } else { None };
+    let (s0, s1, sa) = (sp_le32(&b, SP_NODES), sp_le32(&b, SP_NODES + SP_NODE), sp_le32(&b, SP_ALIAS));
+    let want: Option<usize> = if q == s0 { Some(0) } else if q == s1 { Some(1) } else if q == sa && target < 2 { Some(target as usize) } else { None };
     match (pkg.find_node(q), want) {
         (Some(nref), Some(i)) => assert!(core::ptr::eq(nref, &pkg.nodes[i])),
         (None, None) => {}
         _ => panic!("selector resolved to the wrong answer"),
     }
-    kani::cover!(q == sa && q != s0 && q != s1 && q != s2 && target == 2);
-    kani::cover!(q == sa && q != s0 && q != s1 && q != s2 && target == 3);
+    kani::cover!(q == sa && q != s0 && q != s1 && target == 1);
+    kani::cover!(q == sa && q != s0 && q != s1 && target == 2);
     kani::cover!(q == s1 && q != s0);
     core::mem::forget(pkg);
 }
